@@ -200,3 +200,7 @@ fn c03q_const_parse_no_panic() {
         std::mem::forget(r);
     }
 }
+
+// native replay of a Kani counterexample (bin/vcheck replay): the generated test is included here
+#[cfg(verif_playback)]
+include!("/verif/work/k/playback/arith_harness.rs");
